@@ -55,11 +55,14 @@ Preserves(route, d) == route # "skipped" \/ d.len = "zero"
 \*     defective (float32 time with frame data; aspect written by ShapeIn
 \*     2.0.6) - the dataset exposes the recomputed feature instead
 \*   unknown-feature: an extra dataset under /events with an undefined name
+\*   nan-values: a stored feature with invalid values (and, as in all inputs, no
+\*     stored summaries): what the feature reports as minimum, maximum and mean
+\*     is the same before and after
 \*   mapped-basin: a file basin with twice the events and a mapping feature
 \*   nonscalar-internal-basin: an internal basin that offers only an
 \*     image-shaped feature, whose definition precedes the file basin's
 Extras == {"plain", "defective-time", "defective-aspect", "unknown-feature",
-           "mapped-basin", "nonscalar-internal-basin"}
+           "nan-values", "mapped-basin", "nonscalar-internal-basin"}
 \* stored datasets the copy need not carry over (the dataset-level features
 \* must agree all the same)
 NotCarried(x) == CASE x = "defective-time" -> {"time"}
